@@ -339,7 +339,7 @@ Proof. reflexivity. Qed.
 Example lex_ex_interp : lex_string [c_dq; c_pct; c_lb; 97; c_dq] = LexInterp [] [97; c_dq].
 Proof. reflexivity. Qed.
 
-Example lex_ex_lone_cr : lex_string [c_dq; 97; c_cr; 98; c_dq] = LexErr EPanicLoneCR.
+Example lex_ex_lone_cr : lex_string [c_dq; 97; c_cr; 98; c_dq] = LexErr EGeneric.
 Proof. reflexivity. Qed.
 
 Example lex_ex_cr_error : lex_string [c_dq; c_cr; 98; c_dq] = LexErr EGeneric.
